@@ -321,6 +321,10 @@ class Interp:
     def mkgamma(self, cond: Any, a: Any, b: Any) -> Any:
         if value_eq(a, b):
             return a
+        if a is True and b is False:
+            return cond
+        if a is False and b is True:
+            return _not(cond)
         return Gamma(cond, a, b)
 
     def lift(self, fn: Callable[..., Any], *args: Any) -> Any:
@@ -342,7 +346,7 @@ class Interp:
                     rb = self.lift(fn, *args[:i], a.b, *args[i + 1 :])
                 finally:
                     self.guard.pop()
-                return self.mkgamma(a.cond, ra, rb)
+                return self.mkgamma(a.cond, _resolve(ra, a.cond, True), _resolve(rb, a.cond, False))
         return fn(*args)
 
     # ------------------------------------------------------------------ calling
@@ -1566,6 +1570,21 @@ def scalar_compare(name: str, a: Any, b: Any) -> Any:
     if name == "le" and d.is_positive:
         return False
     return rel
+
+
+def _resolve(r: Any, cond: Any, pol: bool) -> Any:
+    """A condition value computed under guard (cond, pol) that is cond itself (or its
+    negation) is decided by the guard."""
+    if isinstance(r, (T, sp.Basic)):
+        if _same(r, cond):
+            return pol
+        if isinstance(r, T) and r.op == "not" and _same(r.args[0], cond):
+            return not pol
+        if isinstance(cond, T) and cond.op == "not" and _same(cond.args[0], r):
+            return not pol
+        if isinstance(r, sp.Not) and _same(r.args[0], cond):
+            return not pol
+    return r
 
 
 def _not(c: Any) -> Any:
